@@ -820,6 +820,7 @@ fn hash_with<H: Hasher>(mut h: H, t: &Term) -> u64 {
 fn pair_check<W: Write>(o: &mut Out<W>, a: &Term, b: &Term, how: &str) {
     let (sa, sb) = (ser::term(a, Mode::Raw), ser::term(b, Mode::Raw));
     let payload = format!("{sa} {sb}");
+    o.run("hasheq", "-", &payload);
     let got = o.run("eq", "-", &payload);
     let want = ser::term(a, Mode::CanonDedup) == ser::term(b, Mode::CanonDedup);
     o.checked("C06");
@@ -1311,11 +1312,11 @@ fn corpus<W: Write>(o: &mut Out<W>) {
         }
         let out = o.run(cols[0], cols[1], cols[2]);
         // a corpus line may carry the property it guards and the outcome class that would be a violation
-        // `op fmt payload prop forbid-prefix`
+        // `op fmt payload prop forbidden-substring`
         if cols.len() >= 5 {
             o.checked(cols[3]);
-            if out.starts_with(cols[4]) {
-                o.fail(cols[3], cols[1], &format!("corpus case: outcome starts with {:?}", cols[4]), &format!("op={} payload={} out={out}", cols[0], cols[2]));
+            if out.contains(cols[4]) {
+                o.fail(cols[3], cols[1], &format!("corpus case: outcome contains {:?}", cols[4]), &format!("op={} payload={} out={out}", cols[0], cols[2]));
             }
         }
     }
